@@ -13,15 +13,32 @@
      measures_numbered nc s = s with the k-th qpd_measure marker (list order) replaced by Measure writing clbit nc + k
      spec env nc c1         = (measures_numbered nc (flat_map (splice env) c1), max 1 #markers)                      *)
 From CKT Require Import Common.Base Common.Circ Model.Decompose Proofs.DecomposeP.
-From CKT Require Import Model.DecomposeEq Proofs.DecomposeEqP.
+From CKT Require Import Model.DecomposeEq Proofs.DecomposeEqP Proofs.DecomposeAuditP.
 
-(* the running-offset implementation equals the declarative splice, for ALL circuits, groupings and map choices *)
+(* the running-offset implementation equals the declarative splice, for ALL circuits, groupings and map choices.
+   wf_shape c: every instruction has a shape Python can build (2q placeholder on two qubits, 1q placeholder on one qubit
+   with qubit_id < 2); splice_strict takes the qubits by pattern matching on the qubit list and the map by nth_error, so
+   "on that qubit" never rests on an index default *)
 Theorem c14_splice : forall env c nc ids ms,
+  valid env c ids ms -> wf_shape c = true ->
+  decompose env c nc ids (Some (map Some ms)) =
+  Ok (measures_numbered nc (flat_map (splice_strict env) (assign c ids (Some ms))),
+      Nat.max 1 (count_markers (flat_map (splice_strict env) (assign c ids (Some ms))))).
+Proof. exact decompose_splice_strict. Qed.
+
+(* the same without the shape premise, for the TOTALISED splice (qubits by `nth k (iqs i) 0`, half by `0 => fst | _ => snd`):
+   also true of shapes Python cannot build (a 2q placeholder on one qubit is "placed" on the default qubit 0) — kept because
+   the corollaries below and the other properties are stated with it; on well-shaped circuits the two splices agree *)
+Theorem c14_splice_totalised : forall env c nc ids ms,
   valid env c ids ms ->
   decompose env c nc ids (Some (map Some ms)) =
   Ok (measures_numbered nc (flat_map (splice env) (assign c ids (Some ms))),
       Nat.max 1 (count_markers (flat_map (splice env) (assign c ids (Some ms))))).
 Proof. exact decompose_splice. Qed.
+
+Theorem c14_splice_strict_agrees : forall env i,
+  shape_ok i = true -> goodb env i = true -> splice_strict env i = splice env i.
+Proof. exact splice_strict_eq. Qed.
 
 (* what `assign` is: a member of group g gets the map id paired with g; every non-placeholder is untouched *)
 Theorem c14_assign : forall env c ids ms,
@@ -37,7 +54,9 @@ Proof.
   - exact (assign_good env c ids ms Hv).
 Qed.
 
-(* the accepted requests are exactly the semantically well-formed ones (so `valid` hides nothing) *)
+(* what the (repaired) validation accepts, declaratively.  NOTE: this is all the code and the model mean by a consistent
+   grouping; a pair of two half-0 gates of one basis, a lone half of a two-qubit basis and two gates of a one-qubit basis
+   grouped as a pair ARE accepted and decomposed (c14_ex_accepted_odd_groupings) *)
 Theorem c14_validate_characterised : forall c ids,
   validate c ids = Ok tt <->
   (Forall (good_group c) ids /\                                  (* 1 or 2 indices, all placeholders, one basis *)
@@ -51,8 +70,19 @@ Theorem c14_no_placeholder : forall env c nc ids ms out k,
   forall y, In y out -> is_qpd y = false /\ is_marker y = false.
 Proof. exact no_placeholder. Qed.
 
-(* the instructions of the input that are neither placeholders nor markers are a subsequence of the output, in order *)
+(* the instructions of the input that are neither placeholders nor markers are kept AT THEIR PLACE: the one at input index p
+   is found, itself, at the output index = total length of what the p instructions before it became; and the output
+   positions selected by keep_mask (true exactly at those places) are the others of the input, in order *)
 Theorem c14_others_in_order : forall env c nc ids ms out k,
+  valid env c ids ms -> decompose env c nc ids (Some (map Some ms)) = Ok (out, k) ->
+  let c1 := assign c ids (Some ms) in
+  (forall p x, nth_error c p = Some x -> is_other x = true ->
+     nth_error out (length (flat_map (splice env) (firstn p c1))) = Some x) /\
+  length (keep_mask env c1) = length out /\ select (keep_mask env c1) out = filter is_other c.
+Proof. exact others_at_position. Qed.
+
+(* weak form (selection by VALUE: an inserted basis operation equal to an original instruction is indistinguishable) *)
+Theorem c14_others_in_order_weak : forall env c nc ids ms out k,
   valid env c ids ms -> decompose env c nc ids (Some (map Some ms)) = Ok (out, k) ->
   exists mask, length mask = length out /\ select mask out = filter is_other c.
 Proof. exact others_in_order. Qed.
@@ -116,10 +146,16 @@ Theorem c14_refuse_map_out_of_range : forall env c nc ids (mos : list (option Z)
   decompose env c nc ids (Some mos) = Refused.
 Proof. exact refuse_map_out_of_range. Qed.
 
-(* totality: every request whose indices lie inside the circuit is DECIDED — it is the splice of the circuit with the
-   assigned basis_ids when the grouping is accepted, the map choice complete and in range and every placeholder has a
-   basis_id, and a refusal otherwise; never a crash (wfb: class invariant of the gates, c14_setter_invariant) *)
+(* totality: every request whose indices lie inside the circuit, on a well-shaped circuit whose gates satisfy the setter
+   invariant wfb, is DECIDED — it is the (default-free) splice of the circuit with the assigned basis_ids when the grouping
+   is accepted, the map choice complete and in range and every placeholder has a basis_id, and a refusal otherwise *)
 Theorem c14_decided : forall env c nc ids maps,
+  ids_in_range c ids -> forallb (wfb env) c = true -> wf_shape c = true ->
+  decompose env c nc ids maps =
+  if accepts env c ids maps then Ok (spec_strict env nc (assigned c ids maps)) else Refused.
+Proof. exact decompose_decided_strict. Qed.
+
+Theorem c14_decided_totalised : forall env c nc ids maps,
   ids_in_range c ids -> forallb (wfb env) c = true ->
   decompose env c nc ids maps =
   if accepts env c ids maps then Ok (spec env nc (assigned c ids maps)) else Refused.
@@ -128,6 +164,17 @@ Proof. exact decompose_decided. Qed.
 Theorem c14_never_crashes : forall env c nc ids maps,
   ids_in_range c ids -> forallb (wfb env) c = true -> decompose env c nc ids maps <> Crashed.
 Proof. exact decompose_never_crashes. Qed.
+
+(* THE CARVE-OUT of the refusal theorems: an index outside the circuit is NOT refused by the model (nor by the code, which
+   raises IndexError): the answer is a refusal or a crash, and a crash does occur *)
+Theorem c14_index_outside_not_ok : forall env c nc ids maps,
+  (exists g p, In g ids /\ In p g /\ length c <= p) ->
+  decompose env c nc ids maps = Refused \/ decompose env c nc ids maps = Crashed.
+Proof. exact index_outside_not_ok. Qed.
+
+Theorem c14_index_outside_single_crashes : forall env c nc p maps,
+  length c <= p -> decompose env c nc [[p]] maps = Crashed.
+Proof. exact index_outside_single_crashes. Qed.
 
 (* map_ids omitted (wfb: the class invariant "a set basis_id is in range"): the result is the splice with the
    basis_ids already on the gates when every placeholder has one, a refusal otherwise — never a crash *)
@@ -141,24 +188,29 @@ Theorem c14_omitted_never_crashes : forall env c nc ids,
   valid_grouping c ids -> forallb (wfb env) c = true -> decompose env c nc ids None <> Crashed.
 Proof. exact omitted_never_crashes. Qed.
 
-(* out-of-range choices made on the gate itself: the basis_id setter (run by both constructors) accepts exactly the
-   ids 0 <= m < #maps, refuses every other int (negative ones included), and so establishes the invariant wfb *)
-Theorem c14_setter : forall env b m,
+(* out-of-range choices made on the gate itself.  `setter` is the MODEL of the basis_id setter (one line: in range ->
+   Ok, else Refused); that the Python setter is this function is tied by the fact "one ValueError site" and the stream
+   `preset`, not proved.  c14_setter_def unfolds it; c14_setter_invariant: an id accepted by the setter gives a gate
+   (one- or two-qubit) satisfying wfb, the premise of c14_decided / c14_omitted / c14_refines.  What remains assumed for wfb:
+   nobody shrinks basis.maps afterwards (QPDBasis._set_maps stores the caller's list uncopied, so Python can) *)
+Theorem c14_setter_def : forall env b m,
   (setter env b m = Ok tt <-> (0 <= m < Z.of_nat (length (nth b env [])))%Z) /\
   (setter env b m <> Ok tt -> setter env b m = Refused).
 Proof. exact setter_spec. Qed.
 
-Theorem c14_setter_invariant : forall env b h m l qs cs,
-  setter env b (Z.of_nat m) = Ok tt <-> wfb env (mkI (Qpd1 b h (Some m) l) qs cs) = true.
-Proof. exact setter_wfb. Qed.
+Theorem c14_setter_invariant : forall env b m l qs cs,
+  (forall h, setter env b (Z.of_nat m) = Ok tt <-> wfb env (mkI (Qpd1 b h (Some m) l) qs cs) = true) /\
+  (setter env b (Z.of_nat m) = Ok tt <-> wfb env (mkI (Qpd2 b (Some m) l) qs cs) = true).
+Proof. intros env b m l qs cs. split; [intros h; apply setter_wfb|apply setter_wfb2]. Qed.
 
 (* ---------------- QPDBasis equality modelled (Model/DecomposeEq.v) ----------------
    decompose_r re c nc ids maps : the same function on circuits whose basis handles are OBJECT identities; `re` gives
    every basis object its qubit count, maps and exact coefficient vector; the comparison made by the validation is the
    model function rbasis_eqb (QPDBasis.__eq__), no longer an equality the harness borrows from the implementation. *)
 
-(* QPDBasis.__eq__ holds exactly for bases with the same qubit count, the same maps AND the same coefficients *)
-Theorem c14_basis_eq : forall x y, rbasis_eqb x y = true <-> x = y.
+(* the MODEL of QPDBasis.__eq__ (rbasis_eqb) decides equality of (qubit count, maps, coefficients); that the Python method is
+   this function is modelling, tied by the correspondence (modes eq_coeffs_diff_maps / eq_maps_diff_coeffs) *)
+Theorem c14_basis_eq_reflects : forall x y, rbasis_eqb x y = true <-> x = y.
 Proof. exact rbasis_eqb_spec. Qed.
 
 (* validation accepts => all members of every decomposition (the two halves of a pair) carry equal bases *)
@@ -283,6 +335,46 @@ Example c14_ex_2q_after_pair :
   expand_2q c [[3]; [2; 1]; [0]] = Ok (flat_map split2 c) /\ length (flat_map split2 c) = 6.
 Proof. vm_compute. repeat split; reflexivity. Qed.
 
+(* hypotheses of the decision / refusal theorems are satisfiable, and both branches of c14_decided are inhabited *)
+Example c14_ex_decided :
+  ids_in_range exC exIds /\ forallb (wfb exEnv) exC = true /\ wf_shape exC = true /\
+  accepts exEnv exC exIds (Some (map Some exMs)) = true /\
+  accepts exEnv exC exIds None = false /\
+  accepts exEnv exC [[4]; [6; 6]; [2]] (Some (map Some exMs)) = false /\
+  ids_in_range exC [[4]; [6; 6]; [2]].
+Proof.
+  assert (R : forall ids, forallb (fun g => forallb (fun p => Nat.ltb p (length exC)) g) ids = true -> ids_in_range exC ids).
+  { intros ids H g p Hg Hp. rewrite forallb_forall in H. specialize (H g Hg). rewrite forallb_forall in H.
+    apply Nat.ltb_lt. exact (H p Hp). }
+  repeat split; try (apply R); vm_compute; reflexivity.
+Qed.
+
+(* shapes: exC is well shaped; the auditor's instances are not (so c14_splice / c14_decided say nothing about them) *)
+Example c14_ex_shape :
+  wf_shape exC = true /\
+  wf_shape [mkI (Qpd2 0 None None) [3] []] = false /\          (* a two-qubit placeholder on one qubit *)
+  wf_shape [mkI (Qpd1 1 2 None None) [0] []] = false /\         (* qubit_id 2 *)
+  flat_map (splice_strict exEnv) (assign exC exIds (Some exMs)) = flat_map (splice exEnv) (assign exC exIds (Some exMs)).
+Proof. vm_compute. repeat split; reflexivity. Qed.
+
+(* accepted by validation (code and model), although one may call them odd: two half-0 gates as a pair (both get half 0's
+   operations), a lone half 1 of a two-qubit basis, two gates of a one-qubit basis grouped as a pair *)
+Example c14_ex_accepted_odd_groupings :
+  decompose exEnv [mkI (Qpd1 0 0 None None) [0] []; mkI (Qpd1 0 0 None None) [1] []] 0 [[0; 1]] (Some [Some 3%Z])
+    = Ok ([mkI Reset [0] []; mkI (Gate 2) [0] []; mkI Reset [1] []; mkI (Gate 2) [1] []], 1) /\
+  decompose exEnv [mkI (Qpd1 0 1 None None) [0] []] 0 [[0]] (Some [Some 3%Z])
+    = Ok ([mkI Measure [0] [0]; mkI (Gate 3) [0] []], 1) /\
+  decompose exEnv [mkI (Qpd1 1 0 None None) [0] []; mkI (Qpd1 1 0 None None) [1] []] 0 [[0; 1]] (Some [Some 2%Z])
+    = Ok ([mkI Measure [0] [0]; mkI (Gate 1) [0] []; mkI Measure [1] [1]; mkI (Gate 1) [1] []], 2).
+Proof. vm_compute. repeat split; reflexivity. Qed.
+
+(* an index outside the circuit: refused when an earlier check fires first, a crash otherwise *)
+Example c14_ex_index_outside :
+  decompose exEnv exC 1 [[4]; [6; 1]; [9]] (Some (map Some exMs)) = Crashed /\
+  decompose exEnv exC 1 [[4; 6; 1]; [9]] (Some (map Some exMs)) = Refused /\
+  decompose exEnv exC 1 [[9]] None = Crashed.
+Proof. vm_compute. repeat split; reflexivity. Qed.
+
 (* the refusal classes are inhabited *)
 Example c14_ex_refusals :
   let S := fun l : list Z => Some (map Some l) in
@@ -302,10 +394,13 @@ Example c14_ex_refusals :
 Proof. vm_compute. repeat split; reflexivity. Qed.
 
 Print Assumptions c14_splice.
+Print Assumptions c14_splice_totalised.
+Print Assumptions c14_splice_strict_agrees.
 Print Assumptions c14_assign.
 Print Assumptions c14_validate_characterised.
 Print Assumptions c14_no_placeholder.
 Print Assumptions c14_others_in_order.
+Print Assumptions c14_others_in_order_weak.
 Print Assumptions c14_measure_bits.
 Print Assumptions c14_refuse_length.
 Print Assumptions c14_refuse_non_placeholder.
@@ -316,18 +411,21 @@ Print Assumptions c14_refuse_2q_in_pair.
 Print Assumptions c14_refuse_maps_length.
 Print Assumptions c14_refuse_map_none.
 Print Assumptions c14_decided.
+Print Assumptions c14_decided_totalised.
+Print Assumptions c14_index_outside_not_ok.
+Print Assumptions c14_index_outside_single_crashes.
 Print Assumptions c14_never_crashes.
 Print Assumptions c14_refuse_map_out_of_range.
 Print Assumptions c14_omitted.
 Print Assumptions c14_omitted_never_crashes.
-Print Assumptions c14_basis_eq.
+Print Assumptions c14_basis_eq_reflects.
 Print Assumptions c14_accepted_pair_same_basis.
 Print Assumptions c14_refuse_unequal_bases.
 Print Assumptions c14_refines.
 Print Assumptions c14_validate_quotient.
 Print Assumptions c14_all_2q_split.
 Print Assumptions c14_2q_split_order_irrelevant.
-Print Assumptions c14_setter.
+Print Assumptions c14_setter_def.
 Print Assumptions c14_setter_invariant.
 
 (* ---------------- tie to the source (regenerated facts) ---------------- *)
